@@ -90,6 +90,7 @@ struct SinkState {
     partial: u64,
     interrupted: u64,
     flush_calls: u64,
+    vectored_calls: u64,
     /// (offered, accepted) ; accepted = -1 for Interrupted
     log: Vec<(usize, i64)>,
 }
@@ -185,6 +186,13 @@ impl Write for ScriptedWrite {
         }
         st.data.extend_from_slice(&buf[..n]);
         Ok(n)
+    }
+    /// a native vectored write: the slices are one logical run of bytes, and the scripted acceptance (which may end in
+    /// the middle of any slice) applies to the run as a whole - what a pipe or socket does with writev
+    fn write_vectored(&mut self, bufs: &[io::IoSlice<'_>]) -> io::Result<usize> {
+        let joined: Vec<u8> = bufs.iter().flat_map(|b| b.iter().cloned()).collect();
+        self.st.borrow_mut().vectored_calls += 1;
+        self.write(&joined)
     }
     fn flush(&mut self) -> io::Result<()> {
         self.st.borrow_mut().flush_calls += 1;
